@@ -1,0 +1,10 @@
+//go:build verif
+
+package common
+
+// Contracts for the verification framework in /verif (comment-only file,
+// compiled only with -tags verif; see /verif/DESIGN.md).
+
+//@ # ---------------------------------------------------------------- C14: the two defined namespace policies
+//@ func ValidNamespacePolicy(policy)
+//@   ensures result <==> (policy == "NONS" || policy == "NSOK")
